@@ -313,6 +313,10 @@ class Worker(metaclass=SupportClassPropertiesMeta):
             > nor that they won't. This might change in the future, so that the behaviour is consistent at least in the case of ``user_state``,
             > if proven beneficial.
         '''
+        if not self.is_child:
+            # the final state of a child which has ended arrives together with its result - make sure it
+            # has been taken over (this does nothing while the child is still alive)
+            self._get_result()
         return self._user_state
 
     @user_state.setter
